@@ -959,6 +959,10 @@ func (ds *AnySource) PrepareRun(Npresamples int, Nsamples int) error {
 			ts = &defaultTS
 		}
 		dsp.TriggerState = *ts
+		// The record lengths are kept a second time inside the trigger state (see ConfigurePulseLengths),
+		// but they are not saved with it: set them again after installing the stored or default state.
+		dsp.EMTState.nsamp = int32(Nsamples)
+		dsp.EMTState.npre = int32(Npresamples)
 
 		// Publish Records and Record Summaries over ZMQ. Not optional at this time.
 		dsp.SetPubRecords()
